@@ -63,6 +63,7 @@ func runGenEngines(c *Check, o genOpts) map[*ssa.Function]bool {
 	c.Counts["copied_element_updates"] = nLost
 	c.Okf("LOST-UPDATE", "scan", "-", "%d reachable repository functions scanned for field writes on copies of container elements: %d found and evaluated", len(in), nLost)
 	c.Counts["memo_entries_filed"] = memoOnFailure(c, "MEMO-ON-FAILURE", in)
+	c.Okf("MEMO-ON-FAILURE", "scan", "-", "%d reachable repository functions scanned for look-up-or-compute tables filled by functions that can fail: %d entries filed, each evaluated", len(in), c.Counts["memo_entries_filed"])
 	nMemo := memoKeys(c, "MEMO-KEY", in)
 	c.Counts["memo_tables"] = nMemo
 	c.Okf("MEMO-KEY", "scan", "-", "%d reachable repository functions scanned for look-up-or-compute tables: %d found and evaluated", len(in), nMemo)
@@ -70,7 +71,9 @@ func runGenEngines(c *Check, o genOpts) map[*ssa.Function]bool {
 	c.Counts["counter_entry_deletes"] = nCnt
 	c.Okf("COUNTER-PAIR", "scan", "-", "%d reachable repository functions scanned for deletes from per-key nesting counters: %d found and evaluated", len(in), nCnt)
 	c.Counts["block_walkers"] = blockKindsAgree(c, "BLOCK-KINDS", in)
+	c.Okf("BLOCK-KINDS", "scan", "-", "%d reachable repository functions scanned for functions that distinguish two or more block kinds: %d found and evaluated", len(in), c.Counts["block_walkers"])
 	c.Counts["goroutines_started_in_loops"] = goroutineLoopVars(c, "GOROUTINE-LOOPVAR", in)
+	c.Okf("GOROUTINE-LOOPVAR", "scan", "-", "%d reachable repository functions scanned for goroutines started in loops: %d found and evaluated", len(in), c.Counts["goroutines_started_in_loops"])
 	nDead := deadErrors(c, "DEAD-ERROR", in)
 	c.Counts["dead_error_assignments"] = nDead
 	c.Okf("DEAD-ERROR", "scan", "-", "%d reachable repository functions scanned for error results bound to a variable that is never read: %d found", len(in), nDead)
